@@ -15,7 +15,8 @@ LEVEL_NOTE = "Gaps and composition judged at 1e-9 relative to the span (conditio
 TECHNIQUE = "runtime post-condition monitor on repeat (tiling, spacing, junction, composition) under generated workloads"
 RULE = ("case = series of 2..40 points (non-uniform with last step != first step in most cases, integer dtype, lists) x "
         "r in 1..12, or a factor pair (a, b) with a*b <= 24, through the function or the Weaver. non-trivial: r >= 2 "
-        "(or a*b >= 2) on a series whose first and last steps differ; distinct by case index.")
+        "(or a*b >= 2) on a series whose first and last steps differ; distinct by case index."
+        " Also: Weaver.repeat after random domain histories, pandas Series with non-positional index, almost-uniform and nano-scale abscissae.")
 REQUIRED_MONITORS = ["c12:repeat", "c12:composition", "c12:weaver"]
 ASSUMPTIONS = ["series of >= 2 points with strictly increasing abscissae"]
 NSHARDS = 16
